@@ -66,7 +66,8 @@ def impl_result(case):
 def hand_result(case):
     built = T.Built(case['tree'])
     h = T.Hand(built)
-    return common.call_impl(lambda: h.run(case['tree'], copy.deepcopy(case['votes']), **copy.deepcopy(case['args'])), 10)
+    limit = 2 if has_kind(case['tree'], ('adj',)) else 10
+    return common.call_impl(lambda: h.run(case['tree'], copy.deepcopy(case['votes']), **copy.deepcopy(case['args'])), limit)
 
 
 def answer_miss(built, m):
